@@ -129,6 +129,9 @@ def execute(ctx, case):
         lab_pos = case.get("pos_label", 1)
         labels = np.concatenate([np.full(len(pos), lab_pos), np.zeros(len(neg), dtype=int)])
         allv = np.concatenate([np.asarray(pos), np.asarray(neg)]) if len(pos) + len(neg) else np.zeros(0)
+        if len(allv) and case.get("_seed", 0) % 4 == 1:  # labels and scores of matching shape, not necessarily 1-d (a row vector / an (r, c) block)
+            shp_ = (1, len(allv)) if len(allv) % 2 else (2, len(allv) // 2)
+            labels, allv = labels.reshape(shp_), allv.reshape(shp_)
         s = Scores.from_labels(labels, allv, pos_label=lab_pos, **kw)
     elif via == "sorted":
         s = Scores(np.sort(np.asarray(pos)), np.sort(np.asarray(neg)), is_sorted=True, **kw)
